@@ -209,6 +209,17 @@ func main() {
 						must: func(int) bool { return true }})
 			}
 		}
+		if !pl {
+			// a pooled connection whose server went away without FIN/RST: the write succeeds, nothing comes back,
+			// the per-query deadline ends the attempt with a timeout error — which is retried like any other
+			// failure of a connection that was already in use
+			for _, k := range []int{1, 2} {
+				plans := append(repeatPlan(poolx.ConnPlan{Dial: "ok", Answer: k, After: "silent", ReadDL: true}, 1),
+					poolx.ConnPlan{Dial: "ok", After: "healthy"})
+				do(fmt.Sprintf("cat:reuse:silent-after-%d-retry", k), "the pooled connection answers k queries, then goes silent (no FIN); the next query times out on it and must be retried on a fresh one",
+					scen{pipeline: false, maxCq: 1, plans: plans, shortTimeout: true, run: seq(k + 2), must: func(int) bool { return true }})
+			}
+		}
 		if pl {
 			// datagram framing: a connection whose next send fails (its read side stays silent) must be given up,
 			// and the query retried on another connection
